@@ -7,6 +7,7 @@ From Coq Require Import ZArith List Bool.
 Require Import Bits.Lib.Result Bits.Lib.Bytes Bits.Lib.CompactSize Bits.Spec.P2p.
 Require Import Bits.Model.CompactSize Bits.Model.P2pFrame Bits.Model.P2pCodec.
 Require Import Bits.Proofs.P2pFrame Bits.Proofs.P2pCodec Bits.Proofs.P2pCodec2.
+Require Import Bits.Spec.P2pNet Bits.Model.P2pSession Bits.Proofs.P2pSession.
 Import ListNotations.
 Local Open Scope Z_scope.
 
@@ -144,6 +145,44 @@ Theorem C17_eof_every_offset :
     recv_msg sha256 fuel magic (firstn k fr, sch) = Err ConnE.
 Proof. exact eof_every_offset. Qed.
 Print Assumptions C17_eof_every_offset.
+
+(* ---------------------------------------------------------------------------------- module state *)
+(* set_magic_start_bytes either selects the start string of the (case-insensitively) named network ... *)
+Theorem C17_set_magic_accepts :
+  forall network cur m, network_magic network = Some m ->
+    set_magic_start_bytes network cur = (Ok true, m) /\ In (map ascii_lower network, m) network_magics.
+Proof. exact set_magic_accepts. Qed.
+Print Assumptions C17_set_magic_accepts.
+
+(* ... or is refused, and a refused call leaves the global exactly as it was *)
+Theorem C17_set_magic_refused_no_trace :
+  forall network cur e cur', set_magic_start_bytes network cur = (Err e, cur') ->
+    cur' = cur /\ network_magic network = None.
+Proof. exact set_magic_refused_no_trace. Qed.
+Print Assumptions C17_set_magic_refused_no_trace.
+
+(* sessions of select / receive / serialise calls: inserting a REFUSED call (unknown network, non-string argument,
+   msg_ser that raises) anywhere changes neither the outcome of any other call nor the final state *)
+Theorem C17_refused_call_transparent :
+  forall (sha256 : bytes -> bytes) cur a s b, refused sha256 (snd (session sha256 cur a)) s ->
+    session sha256 cur (a ++ s :: b) =
+    (fst (session sha256 cur a) ++ fst (run_step sha256 (snd (session sha256 cur a)) s)
+       :: fst (session sha256 (snd (session sha256 cur a)) b),
+     snd (session sha256 cur (a ++ b))).
+Proof. exact refused_call_transparent. Qed.
+Print Assumptions C17_refused_call_transparent.
+
+(* select a network, any number of refused calls, then a message framed for that network in any fragmentation: received *)
+Theorem C17_select_refuse_receive :
+  forall (sha256 : bytes -> bytes), (forall m, length (sha256 m) = 32%nat) ->
+  forall cur network m junk c p rest sch fuel,
+    network_magic network = Some m -> Forall (fun s => forall cur', refused sha256 cur' s) junk ->
+    In c commands -> zlen p <= max_size -> pos_sched sch -> (24 + length p <= fuel)%nat ->
+    exists fr os, msg_ser sha256 m c p = Ok fr /\
+      session sha256 cur (SSelect network :: junk ++ [SRecv fuel (fr ++ rest) sch])
+      = (OSelect (Ok true) :: os ++ [ORecv (Ok (m, c, p, rest))], m).
+Proof. exact select_refuse_receive. Qed.
+Print Assumptions C17_select_refuse_receive.
 
 (* ---------------------------------------------------------------------------------- codecs *)
 
@@ -295,3 +334,15 @@ Example C17_ex_inv_addr :
           (fun a => bind (addr_payload 1 [a]) parse_addr_payload)
      = Ok [(5, repeat x01 8, ipv4_mapped_localhost, 8333)].
 Proof. split; [eexists; eexists; repeat split; vm_compute; reflexivity | vm_compute; reflexivity]. Qed.
+
+(* "MainNet" selects mainnet; "main" / "" are refused and leave regtest selected; a regtest ping is then still received *)
+Example C17_ex_session :
+  match msg_ser toy_hash regtest_start ex_ping ex_payload with
+  | Ok fr =>
+    session toy_hash testnet_start
+      [SSelect [x52;x65;x67;x54;x65;x73;x74]; SSelect [x6d;x61;x69;x6e]; SSelectBadType; SSelect []; SRecv 40 fr [3;30]]
+    = ([OSelect (Ok true); OSelect (Err ValueE); OSelect (Err AttributeE); OSelect (Err ValueE);
+        ORecv (Ok (regtest_start, ex_ping, ex_payload, []))], regtest_start)
+  | Err _ => False
+  end.
+Proof. vm_compute. reflexivity. Qed.
